@@ -145,7 +145,7 @@ def order_batch(acc, batch):
                 for p, r in files.items():
                     full = os.path.join(base, p)
                     open(full, "w").write("old:" + p)
-                    t = (W.BASE + W.STEP * r) * 10**9
+                    t = W.rank_ns(r)
                     os.utime(full, ns=(t, t))
                 targets = {n: gwfh.mk_target(n, i, o, working_dir=base) for n, i, o in defs}
                 g = Graph.from_targets(targets, CachedFilesystem())
@@ -165,7 +165,7 @@ def order_batch(acc, batch):
                 for pth, _k in sorted(last.items(), key=lambda kv: kv[1]):
                     if os.path.isfile(pth) and pth.startswith(os.path.realpath(base)):
                         clock += 1
-                        t = (W.BASE + W.STEP * clock) * 10**9
+                        t = W.rank_ns(clock)
                         os.utime(pth, ns=(t, t))
                 be, _ops = gwfh.open_backend(worker_scratch("c16"), {})
                 for n, order in zip(multi, combo):
